@@ -4,7 +4,8 @@ Reduction: a run is write o simulate o load and simulate depends on the loaded s
 results follow from LOADER AGREEMENT per format pair.
 
 proof:           Prop_C13.v — the four date formats agree (from C12); classic crop reader = YAML reader o converter
-                 (CropParamModel, character level, any number type) with the known differences as hypotheses
+                 (CropParamModel, character level, any number type) with the known differences as hypotheses;
+                 fixed-width soil reader = CSV soil reader on the two renderings of an abstract profile (SoilModel)
 correspondence:  the REAL ReadCropParamClassic / ReadCropParamYml / ConvertCropParamClassicToYml vs the models on the
                  bytes of every shipped crop file (classic and .yml) and of generated variants, every field of the
                  loaded state / record bit for bit
@@ -29,17 +30,19 @@ ASSUMPTIONS = ["decimal text of <= 15 significant digits is one correctly rounde
                "weather layouts are compared on the content all three can express: no ET0 / sunshine / vapour columns, "
                "no station / wind height line, mean temperature = binary64 (tmin+tmax)/2, no CO2 column",
                "date-valued output columns are blanked when runs in different date formats are compared"]
-LEVEL_TEXT = ("Machine-checked proof (Coq) of loader agreement for the date formats (from C12) and for the crop "
+LEVEL_TEXT = ("Machine-checked proof (Coq) of loader agreement for the date formats (from C12), for the crop "
               "parameter readers (classic fixed-column reader = YAML reader o shipped converter, for every "
               "well-formed classic file, any prior state, with the differences of the readers as explicit "
-              "hypotheses); the crop models are run against the real readers/converter on every shipped file and "
-              "on generated variants each run (bit-exact); every clause of the property is evaluated on the real "
-              "binary by paired whole runs compared as bytes.")
-LEVEL_NOTE = ("partial proof: dates and crop parameter readers are proved; soil (LoadSoil / LoadSoilCSV), rotation, "
-              "measurement and weather readers are NOT modelled here — these clauses are covered by the paired-run "
-              "oracle only (generated soils / rotations / measurement sets / weather series each run). Trusted: Coq "
-              "kernel/vm_compute, YAML codecs, python renderers, harness/driver. The refutation witness "
-              "C13_bbch_difference_refuted evaluates primitive floats; the other theorems are axiom-free.")
+              "hypotheses) and for the soil profile readers (fixed-width LoadSoil = LoadSoilCSV on the two renderings "
+              "of every abstract profile whose texts fit their columns); the crop and soil models are run against "
+              "the real readers/converter on every shipped file and on generated variants each run (bit-exact); "
+              "every clause of the property is evaluated on the real binary by paired whole runs compared as bytes.")
+LEVEL_NOTE = ("partial proof: dates, crop parameter readers and soil readers are proved; the rotation, measurement "
+              "and weather readers are NOT modelled here — these clauses are covered by the paired-run oracle only "
+              "(generated rotations / measurement sets / weather series each run; the weather loaders are modelled "
+              "under C04). Trusted: Coq kernel/vm_compute, YAML codecs, python renderers (the soil renderings are "
+              "checked against the Coq renderers), harness/driver. The refutation witness C13_bbch_difference_refuted "
+              "evaluates primitive floats; the other theorems are axiom-free.")
 TECHNIQUE = "Coq proof (character-level reader models, loader agreement) + bit-exact loaded-state correspondence + paired whole runs"
 
 _cache = {}
@@ -210,11 +213,128 @@ def correspond(ctx):
         c.bump("reader=" + kind); c.bump("shipped" if "~" not in name else "generated")
         c.bump("prior=%s%s" % ("junk" if prior else "zero", "+perennial-continuation" if cont else ""))
     CC.evaluate(ctx, c, cs, "Cases_C13")
+    soil_correspond(ctx, c)
     c.nontrivial = len(seen)
     c.dist["generated_variants_rejected_by_converter"] = conv_failed
     c.samples = ["%s %s" % (p[0], p[1]) for p in plan[:4] + plan[-3:]]
     c.notes.append("compared per case: every field of the crop state (369 floats, 25+ integers) or of the converted record, bit for bit")
-    c.notes.append("NOT modelled (paired runs only): soil, rotation, measurement and weather readers")
+    c.notes.append("NOT modelled (paired runs only): rotation, measurement and weather readers")
+    return c
+
+
+# ------------------------------------------------------------------------------------------------
+# soil loaders: SoilModel vs the real LoadSoil / LoadSoilCSV
+
+SOIL_F = ["BULK", "CGEHALT", "CNRATIO", "NGEHALT", "HUMUS", "STEIN", "FKA", "WP", "GPV", "SSAND", "SLUF", "TON"]
+
+
+def _soil_name(pos):
+    if pos >= 20000:
+        return {99997: "texture-list-length", 99999: "float-list-length", 99998: "int-list-length", 77777: "model accepts, code rejects",
+                88888: "model rejects, code accepts", 70000: "error vs Fatal", 66661: "python txt rendering differs from render_txt",
+                66662: "python csv rendering differs from render_csv"}.get(pos, "BART[%d]" % (pos - 20000))
+    if pos >= 10000:
+        k = pos - 10000
+        return ["AZHO", "WURZMAX", "GW", "DRAIDEP", "N"][k] if k < 5 else ("UKT[%d]" % ((k - 5) // 2 + 1) if (k - 5) % 2 == 0 else "LD[%d]" % ((k - 5) // 2))
+    return "DRAIFAK" if pos == 0 else "%s[%d]" % (SOIL_F[(pos - 1) % 12], (pos - 1) // 12)
+
+
+def _sobs(o):
+    if o is None or o.get("err") == "fatal":
+        return "SCrash"
+    if "err" in o:
+        return "SErr"
+    return "(SOk [%s] [%s]%%Z [%s])" % ("; ".join(CC.fl(x) for x in o["f"]), "; ".join("(%d)" % z for z in o["z"]),
+                                         "; ".join('"%s"' % x for x in o["s"]))
+
+
+def _aprofile_term(P):
+    hs = "; ".join("[%s]" % "; ".join('"%s"' % (h[k].strip() if k == "tex" else h[k]) for k in ("corg", "tex", "depth", "ld", "stone", "cn", "fc", "wp", "ps", "sand", "silt", "clay"))
+                   for h in P.soil)
+    return '(mk_aprofile "%s" "%s" "%s" "%s" "%s" [%s])' % (P.sid, P.rootdepth, P.draindepth, P.drainpct, P.gw, hs)
+
+
+def soil_correspond(ctx, c):
+    import glob, json
+    rnd = random.Random(ctx.seed * 37 + 21)
+    wd = os.path.join(ctx.work, "soils")
+    os.makedirs(wd, exist_ok=True)
+    jobs, plan = [], []
+
+    def job(file, csv, sid, gw):
+        jobs.append({"id": len(jobs), "file": file, "csv": csv, "sid": sid, "gw": gw})
+        return len(jobs) - 1
+
+    for p in sorted(glob.glob(os.path.join(REPO, "examples", "project", "*", "soil_*"))):
+        csv = p.endswith(".csv")
+        data = open(p, "rb").read()
+        ids = []
+        for ln in data.decode("utf-8", "replace").split("\n")[1:]:
+            sid = ln.split(",")[0] if csv else ln[:3]
+            if len(sid) == 3 and sid not in ids:
+                ids.append(sid)
+        if not ctx.thorough and len(ids) > 10:
+            ids = rnd.sample(ids, 10)
+        for sid in ids + ["zzz"]:
+            gw = rnd.random() < 0.5
+            plan.append(("load", os.path.relpath(p, os.path.join(REPO, "examples", "project")), data, csv, gw, sid, job(p, csv, sid, gw)))
+    for k in range(120 if ctx.thorough else 30):
+        P = F.Proj()
+        P.sid = "%03d" % rnd.randrange(1000)
+        P.soil = F.gen_soil(rnd)
+        if k % 7 == 3:                        # malformed: texture too long / not a number / too deep
+            bad = rnd.randrange(3)
+            if bad == 0:
+                P.soil[-1]["tex"] = "SL33"
+            elif bad == 1:
+                P.soil[0]["cn"] = "1x"
+            else:
+                P.soil[-1]["depth"] = "25"
+        if k % 5 == 1:
+            for h in P.soil:
+                h["tex"] = h["tex"].strip().lower()
+        P.rootdepth, P.draindepth, P.drainpct, P.gw = "%02d" % rnd.randrange(1, 20), "%02d" % rnd.randrange(5, 21), rnd.choice(["00", "10", "0.5"]), "%02d" % rnd.randrange(5, 100)
+        t, cv = F.render_soil(P, "txt").encode(), F.render_soil(P, "csv").encode()
+        tp, cp = os.path.join(wd, "g%d.txt" % k), os.path.join(wd, "g%d.csv" % k)
+        open(tp, "wb").write(t); open(cp, "wb").write(cv)
+        gw = rnd.random() < 0.5
+        widths_ok = all(len(h[f]) <= w for h in P.soil for f, w in (("corg", 4), ("tex", 3), ("depth", 2), ("stone", 2), ("cn", 3)))
+        if widths_ok:
+            plan.append(("render", "generated %d" % k, (t, cv), None, None, P, None))
+        plan.append(("load", "generated %d txt" % k, t, False, gw, P.sid, job(tp, False, P.sid, gw)))
+        plan.append(("load", "generated %d csv" % k, cv, True, gw, P.sid, job(cp, True, P.sid, gw)))
+    # the real loaders
+    vh = ctx.harness()
+    jf = os.path.join(ctx.work, "soil_jobs.json")
+    json.dump(jobs, open(jf, "w"))
+    res, start = {}, 0
+    import re as _re
+    while start < len(jobs):
+        q = subprocess.run([vh, "soilstate", "-jobs", jf, "-from", str(start)], stdout=subprocess.PIPE, stderr=subprocess.PIPE, text=True, timeout=600)
+        for line in q.stdout.split("\n"):
+            if line.startswith("{"):
+                o = json.loads(line); res[o["id"]] = o
+        if q.returncode == 0:
+            break
+        last = [int(x) for x in _re.findall(r"(?m)^JOB (\d+)$", q.stderr)]
+        kk = last[-1] if last else start
+        res[kk] = {"id": kk, "err": "fatal"}
+        start = kk + 1
+    cs = CC.CaseSet(per_shard=25)
+    pairs_equal = 0
+    for kind, name, data, csv, gw, x, jid in plan:
+        if kind == "render":
+            cs.add(lambda file, data=data, x=x: "SRender %s %d%%nat %d%%nat" % (_aprofile_term(x), file(data[0]), file(data[1])), "renderers " + name)
+        else:
+            o = res.get(jid)
+            if o and "consistent" in o and not o["consistent"]:
+                c.mismatches.append({"kind": "soil-state", "case": name, "differs": ["GRLO/GRW/GW/CNRAT1 not the copies the model assumes"]})
+            cs.add(lambda file, data=data, o=o: 'SLoad %d%%nat %s %s "%s" %s' % (file(data), CC.b(csv), CC.b(gw), x, _sobs(o)),
+                   "soil loader %s sid=%s gw=%s" % (name, x, gw))
+            c.bump("soil=" + ("csv" if csv else "txt")); c.bump("soil-result=" + ("ok" if o and "f" in o else "error" if o and o.get("err") != "fatal" else "fatal"))
+    CC.evaluate(ctx, c, cs, "Cases_C13soil", fn="smismatches", casetype="scase",
+                extra_import="From Hermes Require Import SoilModel C13SoilCorr.", kind="soil-state", namer=_soil_name)
+    _cache["soil_res"] = (plan, res)
     return c
 
 
